@@ -323,6 +323,8 @@ impl Notifier {
         let Some(handle) = self.handle() else {
             return false;
         };
+        #[cfg(feature = "verif_hooks")]
+        verif_hooks::yield_at(verif_hooks::Point::BeforeCheck);
         let inner = handle.lock().unwrap();
 
         // Early return if we already know we should reload so that
@@ -403,6 +405,8 @@ impl Notifier {
 
     fn keep_reload_pending(&self) {
         if let Some(handle) = self.handle() {
+            #[cfg(feature = "verif_hooks")]
+            verif_hooks::yield_at(verif_hooks::Point::BeforeRemark);
             handle.lock().unwrap().should_reload = true;
         }
     }
@@ -440,6 +444,10 @@ pub mod verif_hooks {
         AfterCreate,
         /// `request_reload`: before the reload flag is set.
         BeforeSet,
+        /// `should_reload`: before the reload flag is read (and the freshness callback polled).
+        BeforeCheck,
+        /// `acquire_env`: the creator function failed, before the reload flag is set again.
+        BeforeRemark,
         /// `request_reload`: after the reload flag was set.
         AfterSet,
     }
